@@ -1,0 +1,81 @@
+//go:build verif
+
+// Verification hooks (add-only, compiled only with -tags verif). They expose
+// unexported pieces of the xar reader and signer to the out-of-tree
+// correspondence harness in /verif (format unit FmtXAR); no existing behaviour
+// is changed.
+package xar
+
+import (
+	"bytes"
+	"crypto"
+	"crypto/x509"
+	"io"
+
+	"github.com/beevik/etree"
+)
+
+// VerifHeader is a copy of the parsed fileHeader.
+type VerifHeader struct {
+	Magic            uint32
+	HeaderSize       uint16
+	Version          uint16
+	CompressedSize   int64
+	UncompressedSize int64
+	HashType         uint32
+}
+
+// VerifParseHeader calls parseHeader on b.
+func VerifParseHeader(b []byte) (VerifHeader, crypto.Hash, error) {
+	hdr, h, err := parseHeader(bytes.NewReader(b))
+	return VerifHeader{hdr.Magic, hdr.HeaderSize, hdr.Version, hdr.CompressedSize, hdr.UncompressedSize, uint32(hdr.HashType)}, h, err
+}
+
+// VerifRewriteTOC runs the TOC rewriting steps of Sign (removeSigs,
+// reserveSignatures, adjustOffsets) on an uncompressed TOC document.
+func VerifRewriteTOC(tocXML []byte, hashType crypto.Hash, certs []*x509.Certificate) (newXML []byte, origSigSize, newSigSize int64, err error) {
+	doc := etree.NewDocument()
+	if err := doc.ReadFromBytes(tocXML); err != nil {
+		return nil, 0, 0, err
+	}
+	toc := doc.FindElement("/xar/toc")
+	if toc == nil {
+		return nil, 0, 0, io.ErrUnexpectedEOF
+	}
+	origSigSize = removeSigs(toc)
+	newSigSize = reserveSignatures(toc, hashType, certs)
+	adjustOffsets(doc, newSigSize-origSigSize)
+	var b bytes.Buffer
+	if _, err := doc.WriteTo(&b); err != nil {
+		return nil, 0, 0, err
+	}
+	return b.Bytes(), origSigSize, newSigSize, nil
+}
+
+// VerifCheckFiles runs the signer's checkFiles over a TOC document and a heap
+// that is delivered as a forward-only stream, as Sign does.
+func VerifCheckFiles(tocXML []byte, heap []byte) error {
+	doc := etree.NewDocument()
+	if err := doc.ReadFromBytes(tocXML); err != nil {
+		return err
+	}
+	toc := doc.FindElement("/xar/toc")
+	if toc == nil {
+		return io.ErrUnexpectedEOF
+	}
+	return checkFiles(toc, &streamReaderAt{r: bytes.NewReader(heap)})
+}
+
+// VerifLastOffset calls lastOffset on the opened archive's files.
+func (x *XAR) VerifLastOffset() int64 { return lastOffset(x.toc.Files) }
+
+// VerifCheckedFiles lists offset and length of the files Verify checksums, in order.
+func (x *XAR) VerifCheckedFiles() [][2]int64 {
+	var dataFiles []*tocFile
+	gatherDataFiles(x.toc.Files, &dataFiles)
+	out := make([][2]int64, len(dataFiles))
+	for i, f := range dataFiles {
+		out[i] = [2]int64{f.Offset, f.Length}
+	}
+	return out
+}
